@@ -57,6 +57,8 @@ impl Lzma2Decoder {
         let mut accum = lzbuffer::LzAccumBuffer::from_stream(output, usize::MAX);
 
         loop {
+            #[cfg(feature = "verif")]
+            crate::verif::emit(crate::verif::Event::Tick(crate::verif::TICK_LZMA2_CHUNK));
             let status = input.read_u8().map_err(|e| {
                 error::Error::LzmaError(format!("LZMA2 expected new status: {}", e))
             })?;
@@ -134,6 +136,12 @@ impl Lzma2Decoder {
             .read_u16::<BigEndian>()
             .map_err(|e| error::Error::LzmaError(format!("LZMA2 expected packed size: {}", e)))?;
         let packed_size = (packed_size as u64) + 1;
+        #[cfg(feature = "verif")]
+        crate::verif::emit(crate::verif::Event::Chunk {
+            control: status,
+            unpacked: unpacked_size,
+            packed: packed_size,
+        });
 
         lzma_info!(
             "LZMA2 compressed block {{ unpacked_size: {}, packed_size: {}, reset_dict: {}, reset_state: {}, reset_props: {} }}",
@@ -205,6 +213,12 @@ impl Lzma2Decoder {
             .read_u16::<BigEndian>()
             .map_err(|e| error::Error::LzmaError(format!("LZMA2 expected unpacked size: {}", e)))?;
         let unpacked_size = (unpacked_size as usize) + 1;
+        #[cfg(feature = "verif")]
+        crate::verif::emit(crate::verif::Event::Chunk {
+            control: if reset_dict { 1 } else { 2 },
+            unpacked: unpacked_size as u64,
+            packed: unpacked_size as u64,
+        });
 
         lzma_info!(
             "LZMA2 uncompressed block {{ unpacked_size: {}, reset_dict: {} }}",
